@@ -273,15 +273,15 @@ func (g *GEM) emitterKind(call *ast.CallExpr) string {
 // ---------------------------------------------------------------- evaluation
 
 type env struct {
-	vals    map[types.Object][]Part // string-valued locals and local builders
-	genvars map[types.Object]bool
-	rows    map[types.Object]map[string]ast.Expr // loop variable of an unrolled constant table → its fields' expressions
-	alias   map[types.Object]string              // Expression parameter of an inlined helper → the caller's expression text
-	fvals   map[types.Object][]ast.Expr          // function-typed local → the functions / method values it may hold here
-	flits   map[types.Object]*litVal             // function-typed local or parameter → the function literal it holds, with the environment it was written in
-	galias  map[types.Object]Part                // local that received the fresh variable name a helper generated and returned → that name
-	bools   map[types.Object]bool                // boolean local whose value is known here (computed from known text: checked := form.typed == "")
-	rowParts map[types.Object]map[string][]Part  // loop variable of an unrolled table → text fields already evaluated where the table was written
+	vals     map[types.Object][]Part // string-valued locals and local builders
+	genvars  map[types.Object]bool
+	rows     map[types.Object]map[string]ast.Expr // loop variable of an unrolled constant table → its fields' expressions
+	alias    map[types.Object]string              // Expression parameter of an inlined helper → the caller's expression text
+	fvals    map[types.Object][]ast.Expr          // function-typed local → the functions / method values it may hold here
+	flits    map[types.Object]*litVal             // function-typed local or parameter → the function literal it holds, with the environment it was written in
+	galias   map[types.Object]Part                // local that received the fresh variable name a helper generated and returned → that name
+	bools    map[types.Object]bool                // boolean local whose value is known here (computed from known text: checked := form.typed == "")
+	rowParts map[types.Object]map[string][]Part   // loop variable of an unrolled table → text fields already evaluated where the table was written
 	tabs     map[types.Object][]tableRow          // slice-typed parameter or loop variable → the table of lines it holds
 	tabLists map[types.Object][][]tableRow        // parameter holding several such tables (blocks ...[]codeLine)
 	posAlias map[types.Object]posRef              // Position parameter of a bookkeeping helper evaluated in place → the caller's r.From / r.To
